@@ -793,6 +793,9 @@ class InClass:
 
         if sort is None:
             sort = self.sort
+        if sort == 'sequence-item':
+            # also when the name comes from sort_expr
+            sort = ''
         need_sortfunc = sort.find('/') >= 0
 
         sortfields = sort.split(',')  # multi sort = key1,key2
